@@ -108,7 +108,19 @@ def deliver_split(kw, triples, inst_prop, bare, tmpdir):
     for s, p, o in triples:
         if p == inst_prop and s[1] not in subjects:
             subjects.append(s[1])
+    hollow = []
+    if isinstance(bare, dict):
+        bare, hollow = bare.get("bare", []), bare.get("hollow", [])
     drop = {subjects[i % len(subjects)] for i in bare} if subjects else set()
+    # hollow classes: EVERY instance of the class is bare, so the class shape is empty and removed at profiling time
+    classes = []
+    for s, p, o in triples:
+        if p == inst_prop and o[1] not in classes:
+            classes.append(o[1])
+    for j in hollow:
+        if classes:
+            c = classes[j % len(classes)]
+            drop |= {s[1] for s, p, o in triples if p == inst_prop and o[1] == c}
     pi = os.path.join(tmpdir, "instances.nt")
     with open(pi, "w", encoding="utf-8") as f:
         f.write(to_nt([t for t in triples if t[1] == inst_prop]))
